@@ -83,6 +83,9 @@ def join_T(a: T | None, b: T | None) -> T:
         return a
     if a.kind == b.kind:
         return dataclasses.replace(a, order=a.order | b.order, elem=a.elem or b.elem, key=a.key or b.key, cls=a.cls or b.cls)
+    if {a.kind, b.kind} == {"set", "seq"}:
+        # the value is a set on one branch: iterating it may follow hash order
+        return T("seq", elem=a.elem or b.elem, order=a.order | b.order | {Taint(HASH, "a value that is a set on one path and a sequence on another")})
     if a.kind == "unknown" or a.kind == "none":
         return b.add_order(a.order)
     if b.kind == "unknown" or b.kind == "none":
@@ -847,6 +850,9 @@ class FuncAnalysis:
                 if meth in ("union", "difference", "intersection", "symmetric_difference", "copy"):
                     return T("set", elem=recv.elem)
                 if meth in ("add", "update", "discard", "remove", "difference_update", "intersection_update"):
+                    # D[k].add(v) on a dict of sets may create key k: D's key order follows the enclosing loops
+                    if isinstance(fn.value, ast.Subscript) and isinstance(fn.value.value, ast.Name) and self.cur_loop_taint():
+                        self.taint_name(fn.value.value.id, self.cur_loop_taint())
                     return T("none")
                 if meth == "pop":
                     return (recv.elem or UNKNOWN).add_order({Taint(HASH, self.origin(n))}) if (recv.elem and recv.elem.kind in ("seq", "str")) else (recv.elem or UNKNOWN)
@@ -1081,9 +1087,13 @@ class FuncAnalysis:
             ann = self.db.parse_ann(st.annotation)
             t = self.type_of(st.value) if st.value is not None else UNKNOWN
             if ann.kind != "unknown":
-                t = dataclasses.replace(ann, order=t.order if t.kind in ("seq", "dict", "str", "unknown", ann.kind) else frozenset(), elem=ann.elem or t.elem)
-                if ann.kind == "set":
-                    t = t.with_order(())
+                if t.kind == "set" and ann.kind in ("seq", "unknown"):
+                    # annotated as Iterable/Sequence but bound to a set: the object is still a set
+                    pass
+                else:
+                    t = dataclasses.replace(ann, order=t.order if t.kind in ("seq", "dict", "str", "unknown", ann.kind) else frozenset(), elem=ann.elem or t.elem)
+                    if ann.kind == "set":
+                        t = t.with_order(())
             self.bind(st.target, t)
             return
         if isinstance(st, ast.AugAssign):
